@@ -114,6 +114,9 @@ BASE_TABLE = [
     ("Co", {"Co": 1}, ("el", "Co")),
     ("Ti", {"Ti": 1}, ("el", "Ti")),
     ("SiO2", {"Si": 1, "O": 2}, None),
+    # forced collisions: the SAME compound (equal structure) with another density
+    ("H2O@0.92", {"H": 2, "O": 1}, ("i", 0.92)),
+    ("SiO2@2.2", {"Si": 1, "O": 2}, ("i", 2.2)),
 ]
 SCALE = 3.2
 UNSCALED = [b[0] for b in BASE_TABLE]
@@ -132,6 +135,7 @@ R1 = [
     ["v", [["Fe", 0.5], ["Co", 1], ["Ti", 3]]],
     ["x", SCALE, ["v", [["H2O@1", 1], ["D2O@1n", 2]]]],
     ["w", [["D2O@1n", 2]]],
+    ["d", 0.8, ["w", [["H2O@1", 1], ["D2O@1n", 2]]]],     # the structure of R1[0] with another density
 ]
 R2 = [
     ["v", [[R1[0], 1], [R1[3], 2]]],
@@ -145,7 +149,7 @@ ALPHABETS = {
     "A1": (BASES, []),
     "A1q": (UNSCALED + ["3.2H2O@1"], []),
     "A2": (BASES, R1),
-    "A2q": (["H2O@1", "Fe", "SiO2"], [R1[0], R1[3], R1[4], R1[8]]),
+    "A2q": (["H2O@1", "Fe", "SiO2"], [R1[0], R1[3], R1[4], R1[8], R1[10]]),
     "A3": (["H2O@1", "Fe", "SiO2", "3.2NaCl@2.16"] + [R1[0], R1[4], R1[8]], R2),
 }
 
@@ -256,6 +260,8 @@ def expr_code(e):
         return "formula(%r)" % e
     if e[0] == "x":
         return "(%r*%s)" % (e[1], expr_code(e[2]))
+    if e[0] == "d":
+        return "formula(%s, density=%r)" % (expr_code(e[2]), e[1])
     fn = "mix_by_weight" if e[0] == "w" else "mix_by_volume"
     return "%s(%s)" % (fn, ", ".join("%s, %r" % (expr_code(c), q) for c, q in e[1]))
 
@@ -263,7 +269,7 @@ def expr_code(e):
 def expr_depth(e):
     if isinstance(e, str):
         return 0
-    if e[0] == "x":
+    if e[0] in ("x", "d"):
         return expr_depth(e[2])
     return 1 + max(expr_depth(c) for c, q in e[1])
 
@@ -281,6 +287,9 @@ class Graph(object):
         if e[0] == "x":
             m = self.ref_of(e[2])
             return m.scaled(e[1]) if isinstance(m, R.Mat) else m
+        if e[0] == "d":
+            m = self.ref_of(e[2])
+            return R.Mat(m.atoms, e[1]) if isinstance(m, R.Mat) else m
         parts = []
         for c, q in e[1]:
             m = self.ref_of(c)
@@ -303,6 +312,11 @@ class Graph(object):
             g.density = f.density
             observe(g)
             return g
+        if e[0] == "d":       # the same structure with another density (the caller's own estimate)
+            f = self.lib_of(e[2])
+            g = env.formula(f, density=e[1])
+            observe(g)
+            return g
         args = []
         for c, q in e[1]:
             args += [self.lib_of(c), q]
@@ -318,7 +332,7 @@ class Graph(object):
             ok = True
             if not isinstance(e, str):
                 probe = Acc()
-                inner = e[2] if e[0] == "x" else e
+                inner = e[2] if e[0] in ("x", "d") else e
                 comps = [self.component(c, acc) for c, q in inner[1]]
                 if any(c is None for c in comps):
                     ok = False
@@ -381,7 +395,7 @@ class Graph(object):
         if bad[0] == "ok":
             acc.outcome("A:" + bad[1])
             return
-        cause = bad[1] + self.zero_cause(kind, args[0::2], refs, qs)
+        cause = bad[1] + self.input_class(kind, args[0::2], refs, qs)
         return self._viol(acc, "mix:%s:%s" % (kind, cause), case, want, bad[2], bad[3])
 
     def judge(self, kind, refs, qs, want, got, exc):
@@ -434,6 +448,36 @@ class Graph(object):
             if self.judge(kind, r2, q2, R.mix(kind, list(zip(r2, q2)), self.env.amass), got, exc)[0] != "ok":
                 return ""
         return ":zero-part-without-density"
+
+    def repeat_cause(self, kind, objs, refs, qs):
+        """':same-compound-other-density' when two parts with positive quantity are the same compound with
+        different densities (or one without) and the call is right once the later one is replaced by the
+        earlier object itself (the same object twice in one call is an ordinary member), '' otherwise."""
+        sub = {}
+        for i in range(len(qs)):
+            for j in range(i):
+                if (qs[i] > 0 and qs[j] > 0 and j not in sub and refs[i].density != refs[j].density
+                        and R.same_compound(refs[i].atoms, refs[j].atoms)):
+                    sub[i] = j
+                    break
+        if not sub:
+            return ""
+        o2 = [objs[sub.get(i, i)] for i in range(len(qs))]
+        r2 = [refs[sub.get(i, i)] for i in range(len(qs))]
+        args = []
+        for o, q in zip(o2, qs):
+            args += [o, q]
+        got = exc = None
+        try:
+            got = (self.env.mixw if kind == "w" else self.env.mixv)(*args)
+        except Exception as e:
+            exc = e
+        if self.judge(kind, r2, qs, R.mix(kind, list(zip(r2, qs)), self.env.amass), got, exc)[0] != "ok":
+            return ""
+        return ":same-compound-other-density"
+
+    def input_class(self, kind, objs, refs, qs):
+        return self.zero_cause(kind, objs, refs, qs) + self.repeat_cause(kind, objs, refs, qs)
 
     def deep_check(self, kind, comps, qtuples, acc):
         """After all quantity tuples of one component tuple: the observable values of the caller's objects
@@ -583,7 +627,9 @@ def _graph_shard(arg):
 # calls), and in-place updates of `a` by the caller.  Every judged call must equal the reference prediction
 # for the CURRENT state of the objects, the objects must come back unaltered from every call, and results
 # obtained earlier must not change afterwards.
-HIST_PAIRS = [("H2O@1", "NaCl@2.16"), ("D2O@1n", "Fe"), ("SiO2", "Co"), ("3.2NaCl@2.16", "SiO2"), ("Fe", "H2O@1")]
+HIST_PAIRS = [("H2O@1", "NaCl@2.16"), ("D2O@1n", "Fe"), ("SiO2", "Co"), ("3.2NaCl@2.16", "SiO2"), ("Fe", "H2O@1"),
+              # b is the same compound as a (equal structure) with another density / with a density
+              ("H2O@1", "H2O@0.92"), ("SiO2", "SiO2@2.2")]
 HIST_FORMS = {"ab": (("a", 1), ("b", 2)), "ba": (("b", 3), ("a", 0.5)), "aa": (("a", 1), ("a", 2)),
               "ab0": (("a", 1), ("b", 0)), "a0b": (("a", 0), ("b", 2))}
 HIST_KW = dict(density=9.9, name="mixture")
@@ -684,7 +730,7 @@ class History(object):
             want = R.mix(kind, list(zip(refs, qs)), env.amass)
             bad = g.judge(kind, refs, qs, want, got, exc)
             if bad[0] != "ok":
-                bad = (bad[0], bad[1] + g.zero_cause(kind, args[0::2], refs, qs)) + tuple(bad[2:])
+                bad = (bad[0], bad[1] + g.input_class(kind, args[0::2], refs, qs)) + tuple(bad[2:])
                 exp = ("atoms (up to one common factor) %s density=%r" % (sorted(want.atoms.items()), want.density)
                        if isinstance(want, R.Mat) else str(want))
                 return (i, kind, bad[1], exp, bad[2])
@@ -794,8 +840,8 @@ def N(m, tag=None): return ["n", m, tag]
 
 
 QSTR = ("0.0", "0.000001", "0.5", "1", "2", "3", "1000000")
-PV = ("0.0", "0.000001", "0.5", "1", "2", "3", "10", "50", "97", "99.5", "100")
-PV5 = ("0.0", "0.000001", "1", "50", "99.5")
+PV = ("0.0", "0.000001", "0.5", "1", "2", "3", "10", "25", "50", "75", "97", "99.5", "100")
+PV5 = ("0.0", "0.000001", "1", "25", "50", "99.5")
 QPAIRS_QUICK = (("1", "1"), ("2", "3"), ("0.000001", "1000000"), ("1000000", "0.5"), ("0.0", "2"), ("3", "0.0"))
 FAMILY = {"w": "pw", "v": "pv", "m": "massvol", "l": "layer"}
 
@@ -858,8 +904,8 @@ class Strings(object):
             cls = R.percent_class(vals)
             if cls == "over":
                 return Res("error", why="percentages>100")
-            if cls == "full":
-                return Res("excluded", why="percentages sum to exactly 100")
+            if cls == "full" and sum(float(v) for v in vals) != 100.0:
+                return Res("excluded", why="percentages sum to 100 only in exact arithmetic")
             rs = []
             for p in [p for v, sp, p in node[2]] + [node[3]]:
                 r = self.evaluate(p, code)
@@ -867,7 +913,8 @@ class Strings(object):
                     return r
                 rs.append(r)
             fl = [float(v) for v in vals]
-            qs = fl + [100 - sum(fl)]
+            # the remainder goes to the last part; a remainder of zero is a zero quantity: the part vanishes
+            qs = fl + [0.0 if cls == "full" else 100 - sum(fl)]
             return self._mix(kind, rs, qs, code)
         if t == "q":
             fam = node[1]
@@ -1274,7 +1321,47 @@ def part_forms(texts):
     return out
 
 
-BLOCKS = (("collisions", block_collisions), ("scaled", block_scaled), ("spellings", block_spellings), ("percentages", block_percentages), ("units", block_units),
+# the same compound twice in one mixture with different densities (thermal and native oxide, dense and porous
+# layer, water and ice), also once with and once without a density
+REPEAT_SETS = (("SiO2@2.2", "Si", "SiO2@2.65"), ("H2O@1", "NaCl@2.16", "H2O@0.92"), ("SiO2", "Fe", "SiO2@2.2"))
+
+
+def block_repeats(quick):
+    out = []
+    for cset in REPEAT_SETS:
+        X1, Y, X2 = [C(t) for t in cset]
+        orders = [(X1, Y, X2), (X1, X2, Y), (Y, X1, X2), (X2, Y, X1), (X2, X1, Y), (Y, X2, X1)]
+        forms = []
+        for a, b, c in orders:
+            for kind in ("w", "v"):
+                sp = R.CANON_SPELLING[kind]
+                forms.append(P(kind, [("20", sp, a), ("30", "%", b)], c))
+                forms.append(P(kind, [("50", sp, a), ("50", "%", b)], c))        # remainder zero: c vanishes
+            for fam, units in (("m", ("g", "mL", "kg")), ("l", ("nm", "um"))):
+                for u1 in units:
+                    for u3 in units:
+                        forms.append(Q(fam, [U("10", u1, a), U("5", units[0], b), U("2", u3, c)]))
+                g2 = Q(fam, [U("10", units[0], a), U("5", units[0], b)])
+                forms.append(Q(fam, [G(g2, "3"), U("2", units[0], c)]))                # repeat across a group
+                forms.append(Q(fam, [U("2", units[0], c), G(g2, None)]))
+                forms.append(Q(fam, [G(Q(fam, [U("10", units[0], a), U("5", units[0], b), U("2", units[0], c)]), "2")]))
+                forms.append(Q(fam, [U("5", units[0], N(g2)), U("2", units[0], c)]))    # repeat across a nested part
+            for kind in ("w", "v"):
+                sp = R.CANON_SPELLING[kind]
+                inner = N(P(kind, [("40", sp, a)], b))
+                forms.append(P(kind, [("20", sp, inner)], c))
+                forms.append(P(kind, [("20", sp, c)], inner))
+        for a, c in ((X1, X2), (X2, X1)):                       # nothing but the repeated compound
+            for kind in ("w", "v"):
+                forms.append(P(kind, [("20", R.CANON_SPELLING[kind], a)], c))
+            for fam, u in (("m", "g"), ("m", "mL"), ("l", "nm")):
+                forms.append(Q(fam, [U("10", u, a), U("2", u, c)]))
+        for node in forms:
+            out.append((node, CANON))
+    return out
+
+
+BLOCKS = (("repeats", block_repeats), ("collisions", block_collisions), ("scaled", block_scaled), ("spellings", block_spellings), ("percentages", block_percentages), ("units", block_units),
           ("nested", block_nested), ("groups", block_groups))
 
 
